@@ -457,6 +457,14 @@ def maint_shard(root, version):
                     s = ws[saved]
                     ps = s.pickle_path()
                     os.utime(ps, (now - age_saved, os.path.getmtime(ps)))    # last *read* long ago
+                    loaded = lock != '1h' and age_other == 0
+                    if loaded:
+                        # the other entry was written 40 days ago, and is loaded from disk (= used) right now
+                        os.utime(po, (now - 2 * DAY, now - 40 * DAY))
+                        os.utime(other.src, (now - 50 * DAY, now - 50 * DAY))
+                        other.restart()
+                        other.parse()
+                        other.restart()
                     t = now + 5
                     os.utime(s.src, (t, t))
                     try:
@@ -469,6 +477,7 @@ def maint_shard(root, version):
                         acc.fail(('entry-just-saved-deleted',), case, '')
                     if age_other < 30 * DAY and not os.path.exists(po):
                         acc.fail(('entry-in-use-deleted',), case, '')
+                    os.utime(other.src, (1_600_000_000, 1_600_000_000))
                     for w in ws:
                         w.restart()
                         try:
